@@ -209,15 +209,21 @@ func buildOpts(nodes []optNode, side string, log *layerLog, rl *recoverLog, rec 
 					rl.calls++
 					rl.seen = append(rl.seen, classOfPanic(v))
 					rl.mu.Unlock()
+					// (the error the function returns carries metadata of its own)
+					coded := func(cause error) *connect.Error {
+						e := connect.NewError(connect.CodeDataLoss, cause)
+						e.Meta().Set("X-Rec-Meta", "m")
+						return e
+					}
 					if c := classOfPanic(v); c == "struct" {
 						// ... or an error that wraps the function's coded error (errors.As finds it)
-						return fmt.Errorf("while recovering: %w", connect.NewError(connect.CodeDataLoss, errors.New("recovered")))
+						return fmt.Errorf("while recovering: %w", coded(errors.New("recovered")))
 					} else if c == "string" {
 						// what the function returns is the function's business: a coded error whose cause happens to
 						// be a context error must reach the client with the function's code
-						return connect.NewError(connect.CodeDataLoss, fmt.Errorf("recovered%w", ctxCause{}))
+						return coded(fmt.Errorf("recovered%w", ctxCause{}))
 					}
-					return connect.NewError(connect.CodeDataLoss, errors.New("recovered"))
+					return coded(errors.New("recovered"))
 				}))
 				continue
 			}
@@ -359,6 +365,7 @@ func runOpts(raw json.RawMessage, seed int64, rec *Rec) {
 		}, hopts...)
 	case "server":
 		h = connect.NewServerStreamHandler(e2eProc, func(_ context.Context, r *connect.Request[BV], ss *connect.ServerStream[BV]) error {
+			ss.ResponseTrailer().Set("X-Rec-Trl", "t") // set before anything can panic: it reaches the client either way
 			for i := 0; i < nsend; i++ {
 				if err := pv(i); err != nil {
 					return err
@@ -371,6 +378,7 @@ func runOpts(raw json.RawMessage, seed int64, rec *Rec) {
 		}, hopts...)
 	default:
 		h = connect.NewBidiStreamHandler(e2eProc, func(_ context.Context, bs *connect.BidiStream[BV, BV]) error {
+			bs.ResponseTrailer().Set("X-Rec-Trl", "t")
 			if err := pv(0); err != nil {
 				return err
 			}
@@ -538,7 +546,11 @@ func runOpts(raw json.RawMessage, seed int64, rec *Rec) {
 	if errors.As(cerr, &ce) {
 		msg = ce.Message()
 	}
+	recMeta, recTrl := "", ""
+	if ce != nil {
+		recMeta, recTrl = ce.Meta().Get("X-Rec-Meta"), ce.Meta().Get("X-Rec-Trl")
+	}
 	rec.Add(E("outcome", "ok", cerr == nil, "code", codeOf(cerr), "msg", msg, "got", got, "handle_calls", rl.calls,
-		"seen", nzs(rl.seen), "aborted", aborted))
+		"seen", nzs(rl.seen), "aborted", aborted, "recmeta", recMeta, "rectrl", recTrl))
 	rl.mu.Unlock()
 }
